@@ -13,6 +13,7 @@ import (
 	"time"
 
 	"src.elv.sh/pkg/daemon/daemondefs"
+	"src.elv.sh/pkg/daemon/internal/api"
 	"src.elv.sh/pkg/store"
 	"src.elv.sh/pkg/store/storedefs"
 	"src.elv.sh/pkg/zzverif/vk"
@@ -171,6 +172,24 @@ func c27Install(env *c27Env, scratch string) {
 		fmt.Sscanf(who, "daemon%d", &id)
 		return &c27Store{env: env, owner: who, id: id}, nil
 	}
+	// killDaemon's process.Signal(os.Interrupt): the signal goes to the daemon that currently owns the socket
+	vsched.Hooks["kill"] = func(sig os.Signal) error {
+		vsched.Point("kill")
+		e, ok := env.entries["/run/sock"]
+		var id int
+		if ok {
+			fmt.Sscanf(e.creator, "daemon%d", &id)
+		}
+		if id < 1 || id > len(env.sigs) {
+			return fmt.Errorf("no such process")
+		}
+		vsched.Logf("note: %s sent an interrupt to daemon%d", vsched.Tag(), id)
+		select {
+		case env.sigs[id-1] <- syscall.SIGINT:
+		default:
+		}
+		return nil
+	}
 	vsched.Hooks["sleep"] = func(d time.Duration) { vsched.Sleep(25) }
 	vsched.Hooks["since"] = func(t time.Time) time.Duration { return time.Duration(vsched.Sleeps()) * 400 * time.Millisecond }
 	startProcess = func(name string, argv []string, attr *os.ProcAttr) error {
@@ -183,12 +202,13 @@ func c27Install(env *c27Env, scratch string) {
 				db = argv[i+1]
 			}
 		}
-		c27StartDaemon(env, sock, db)
+		vsched.Logf("SPAWN of daemon%d by %s", env.daemons+1, vsched.Tag())
+		c27StartDaemon(env, sock, db, nil)
 		return nil
 	}
 }
 
-func c27StartDaemon(env *c27Env, sock, db string) chan struct{} {
+func c27StartDaemon(env *c27Env, sock, db string, version *int) chan struct{} {
 	env.daemons++
 	tag := fmt.Sprintf("daemon%d", env.daemons)
 	sig := make(chan os.Signal, 1)
@@ -196,7 +216,7 @@ func c27StartDaemon(env *c27Env, sock, db string) chan struct{} {
 	ready := make(chan struct{})
 	vsched.Go(func() {
 		vsched.SetTag(tag)
-		code := Serve(sock, db, ServeOpts{Signals: sig, Ready: ready})
+		code := Serve(sock, db, ServeOpts{Signals: sig, Ready: ready, Version: version})
 		vsched.Logf("%s exited code=%d", tag, code)
 	})
 	return ready
@@ -208,6 +228,11 @@ type c27Scen struct {
 	shells  int
 	// shell 1 disconnects as soon as it is activated (instead of waiting for the others)
 	firstLeavesEarly bool
+	// liveVersion is added to api.Version for the daemon that serves the socket initially ("live" scenarios):
+	// +1 = started by a newer elvish (must be left alone), -1 = outdated (is killed and replaced, by design)
+	liveVersion int
+	// resident: a client is connected to the initial daemon for the whole scenario and calls it again at the end
+	resident bool
 }
 
 func c27Body(sc c27Scen) func() {
@@ -228,9 +253,18 @@ func c27Body(sc c27Scen) func() {
 			env.nextInode++
 			env.entries[sock] = &c27Sock{inode: env.nextInode, creator: "crashed-daemon"}
 		case "live":
-			ready := c27StartDaemon(env, sock, db)
+			v := api.Version + sc.liveVersion
+			ready := c27StartDaemon(env, sock, db, &v)
 			vsched.Recv(ready)
-			// keep it alive with one client until the scenario ends
+		}
+		var resident *client
+		if sc.resident {
+			vsched.SetTag("resident")
+			resident = NewClient(sock).(*client)
+			if _, err := resident.Version(); err != nil {
+				panic(err)
+			}
+			vsched.SetTag("")
 		}
 		activated := 0
 		finished := 0
@@ -271,6 +305,14 @@ func c27Body(sc c27Scen) func() {
 			})
 		}
 		vsched.WaitUntil("shells-finished", func() bool { return finished == sc.shells })
+		if resident != nil {
+			if id, err := resident.NextCmdSeq(); err != nil {
+				vsched.Logf("resident later-call failed: %v", err)
+			} else {
+				vsched.Logf("resident still on daemon%d", id)
+			}
+			resident.Close()
+		}
 		// end of scenario: daemons that never had a client would wait forever; interrupt them
 		for _, s := range env.sigs {
 			select {
@@ -308,6 +350,8 @@ func c27Oracle(sc c27Scen) func(r *vsched.Result) [][2]string {
 				if !seen["activated-on-daemon-without-database:socket-initially-"+sc.initial] {
 					add("daemon-stopped-serving-a-connected-client", l)
 				}
+			case strings.HasPrefix(l, "SPAWN ") && sc.initial == "live" && sc.liveVersion >= 0:
+				add("spawned-a-daemon-although-a-live-one-of-a-current-version-was-serving", l)
 			case strings.Contains(l, " still on "):
 				f := strings.Fields(l)
 				still[f[0]] = f[3]
@@ -330,13 +374,19 @@ func c27Oracle(sc c27Scen) func(r *vsched.Result) [][2]string {
 func c27Scenarios() []vshard.Scenario {
 	var scs []vshard.Scenario
 	for _, sc := range []c27Scen{
-		{"one-shell-absent", "absent", 1, false},
-		{"one-shell-stale", "stale", 1, false},
-		{"two-shells-absent", "absent", 2, false},
-		{"two-shells-stale", "stale", 2, false},
-		{"two-shells-live", "live", 2, false},
-		{"first-leaves-while-second-activates", "absent", 2, true},
-		{"first-leaves-while-second-activates-stale", "stale", 2, true},
+		{"one-shell-absent", "absent", 1, false, 0, false},
+		{"one-shell-stale", "stale", 1, false, 0, false},
+		{"two-shells-absent", "absent", 2, false, 0, false},
+		{"two-shells-stale", "stale", 2, false, 0, false},
+		{"two-shells-live", "live", 2, false, 0, false},
+		{"first-leaves-while-second-activates", "absent", 2, true, 0, false},
+		{"first-leaves-while-second-activates-stale", "stale", 2, true, 0, false},
+		// version skew: a daemon started by a newer elvish, with a connected client, must be left alone
+		{"one-shell-live-newer-daemon-with-resident-client", "live", 1, false, 1, true},
+		{"two-shells-live-newer-daemon-with-resident-client", "live", 2, false, 1, true},
+		{"one-shell-live-same-version-with-resident-client", "live", 1, false, 0, true},
+		// an outdated daemon is interrupted and replaced
+		{"one-shell-live-outdated-daemon", "live", 1, false, -1, false},
 	} {
 		sc := sc
 		scs = append(scs, vshard.Scenario{Name: sc.name, Body: c27Body(sc), MultiOracle: c27Oracle(sc),
@@ -363,8 +413,8 @@ func TestVerifC27(t *testing.T) {
 		return
 	}
 	vk.Run(t, "C27", "model_checking", func(c *vk.Ctx) {
-		c.Rule(fmt.Sprintf("7 scenarios (1-2 shells; socket absent, stale or served by a live daemon; one shell leaving while the other activates) of the REAL Activate, Serve, daemon client and rpc code running as goroutines under the controlled scheduler against a modelled environment (socket name space with inodes, listeners with backlog, database lock with timeout, virtual sleep clock); every schedule with <=%d departures from the default goroutine; class = distinct observation log", cfg.Bound))
-		c.Assume("the operating-system environment is a model: os.Lstat/os.Remove/net.Listen/net.Dial/store.NewStore/time.Sleep/time.Since call sites in pkg/daemon are redirected to it and process spawning becomes a goroutine running the real Serve; UnixListener.Close unlinks its path as Go's does; the outdated-daemon/kill path is not exercised",
+		c.Rule(fmt.Sprintf("11 scenarios (1-2 shells; socket absent, stale or served by a live daemon of the same, a newer or an outdated version, three of them with a resident client connected throughout; one shell leaving while the other activates) of the REAL Activate, Serve, daemon client and rpc code running as goroutines under the controlled scheduler against a modelled environment (socket name space with inodes, listeners with backlog, database lock with timeout, virtual sleep clock); every schedule with <=%d departures from the default goroutine; class = distinct observation log", cfg.Bound))
+		c.Assume("the operating-system environment is a model: os.Lstat/os.Remove/net.Listen/net.Dial/store.NewStore/time.Sleep/time.Since call sites in pkg/daemon are redirected to it and process spawning becomes a goroutine running the real Serve; UnixListener.Close unlinks its path as Go's does; killDaemon's signal is delivered to the Signals channel of the daemon owning the socket",
 			"the implementation itself is what is explored (no separate protocol model), so every explored transition is an implementation step")
 		vshard.Run(c, c27Scenarios(), cfg)
 	})
